@@ -28,7 +28,13 @@ Set set_union(Set const &_a, Set const &_b)
   Set result;
 
   ::std::set_union(
-      _a.begin(), _a.end(), _b.begin(), _b.end(), ::std::inserter(result, result.begin()));
+      _a.begin(),
+      _a.end(),
+      _b.begin(),
+      _b.end(),
+      ::std::inserter(result, result.begin()),
+      // The ranges are sorted by the sets' own order, which need not be operator<.
+      _a.value_comp());
 
   return result;
 }
